@@ -1,5 +1,6 @@
 import HavocVerif.Gen.LockFacts
 import HavocVerif.Gen.LockPaths
+import HavocVerif.Gen.TableWrites
 /-
   Lock pairing over the regenerated per-function event sequences
   (Gen.LockFacts, source order).  `balanced evs` = no `return`, and no falling off
@@ -76,5 +77,21 @@ def unbalancedIn (pkgs : List String) : List String :=
 def pathsUnbalancedIn (pkgs : List String) : List String :=
   (Gen.LockPaths.funcs.filter fun (pkg, _, ps) => pkgs.contains pkg && !(ps.all balanced)).map
     fun (pkg, n, _) => pkg ++ "/" ++ n
+
+/-- shapes of an assignment to a shared slice table under which the table behaves like the immutable list value the
+    models take it for: nothing that was handed out earlier (a batch, a copy under the lock, a replay in progress) can
+    be overwritten through the table afterwards.  `delete-at` (`append(T[:i], T[i+1:]...)`) shifts inside the table's own
+    live region, which is why readers must copy under the table's mutex (the guarded-access facts). -/
+def valueLikeShape (s : String) : Bool :=
+  s == "nil" || s == "empty" || s == "push" || s == "delete-at" || s == "split" || s == "fresh-local"
+
+/-- writes to the given tables that are not value-like: (package/function, table, shape) -/
+def aliasingWrites (tables : List String) : List (String × String × String) :=
+  (Gen.TableWrites.writes.filter fun (_, _, t, sh) => tables.contains t && !valueLikeShape sh).map
+    fun (pkg, f, t, sh) => (pkg ++ "/" ++ f, t, sh)
+
+/-- tables among `tables` that are written at least once (non-vacuity of the check above) -/
+def writtenTables (tables : List String) : List String :=
+  tables.filter fun t => Gen.TableWrites.writes.any fun (_, _, t', _) => t' == t
 
 end Havoc
